@@ -21,16 +21,16 @@ type IGCFix struct {
 
 // IGCModel is the decoder state machine.
 type IGCModel struct {
-	FoundA, LeadingNoise   bool
-	Year, Month, Day       int
-	LastDate               time.Time
-	BLen                   int
-	LadStart, LadStop      int
-	LodStart, LodStop      int
-	TdsStart, TdsStop      int
-	Headers                []IGCHeader
-	Fixes                  []IGCFix
-	RecordErrors           int // errors of individual records (excludes the A-record verdict)
+	FoundA, LeadingNoise bool
+	Year, Month, Day     int
+	LastDate             time.Time
+	BLen                 int
+	LadStart, LadStop    int
+	LodStart, LodStop    int
+	TdsStart, TdsStop    int
+	Headers              []IGCHeader
+	Fixes                []IGCFix
+	RecordErrors         int // errors of individual records (excludes the A-record verdict)
 	// MaxLatDeg / MaxLngDeg are the exclusive upper bounds of the degree fields.
 	MaxLatDeg, MaxLngDeg int
 }
